@@ -161,6 +161,13 @@ func totpAt(secret string, t time.Time) string {
 // period: must be accepted), "skew" (±1 period: either), "stale" (must be
 // rejected).
 func totpVerdict(secret, code string, t time.Time) string {
+	if trimmed := strings.TrimSpace(code); trimmed != code {
+		// the digits wrapped in white space: a verifier may or may not strip it
+		if totpVerdict(secret, trimmed, t) != "stale" {
+			return "skew"
+		}
+		return "stale"
+	}
 	if secret == "" || len(code) != 6 {
 		return "stale"
 	}
